@@ -1748,6 +1748,8 @@ def run(ctx):
         e['id'] = f'exec-{k}'
     nworkers = min(12, max(2, (os.cpu_count() or 4) - 2))
     pool = Pool(nworkers)
+    import c20_stall
+    stall = c20_stall.start(ctx)      # back-pressure scenarios on real sockets (peer that stops reading), in the background
     payload = [{'id': s['id'], 'cfg': s['cfg'], 'labels': s['labels'], 'expect': s.get('expect'),
                 'grace': 1.0 if quick else 2.0} for s in scs] + conn + execs
     results = pool.map(payload)
@@ -1818,6 +1820,7 @@ def run(ctx):
             got = f"ok raised={'1' if raised else '0'} alive={'1' if r['executor_alive'] else '0'}"
             if got != model_conn[c['mode']]:
                 ctx.disagree(f"connect {c['mode']}: model {model_conn[c['mode']]} vs implementation {got} ({r['raised']})", rep)
+    c20_stall.finish(ctx, stall)
 
 
 def run_execs(ctx, execs, exec_results, have_model):
@@ -1884,6 +1887,9 @@ def replay(ctx, path):
         print('implementation:', res)
         ctx.case('connect ' + rep['mode'])
         return
+    if rep.get('kind') == 'stall':
+        import c20_stall
+        return c20_stall.replay(ctx, rep)
     if rep.get('exec') is not None:
         e = dict(rep['exec'], id='exec-0', type='exec')
         res = Pool(1).map([e])[0]
